@@ -43,7 +43,10 @@ class _FixedDateTimeZone(DateTimeZone):
 
         if offset == Offset.zero:
             return self._UTC_ID
-        return self._UTC_ID + str(offset)
+        from pyoda_time.text import OffsetPattern
+
+        # The id must not depend on the current culture: it is parsed back with the same invariant pattern.
+        return self._UTC_ID + OffsetPattern.general_invariant.format(offset)
 
     @classmethod
     def _get_fixed_zone_or_null(cls, id_: str) -> DateTimeZone | None:
